@@ -415,6 +415,9 @@ func c20StructureSweep(c *fw.Ctx) {
 }
 
 func c20Run(c *fw.Ctx) {
+	{
+		interfRun(c, "C20") // statement-level interleavings of operations on disjoint objects (subprocess)
+	}
 	// every shard sweeps its slice of the 10^8 codes (CPU bound) while it replays its share of the restart
 	// histories (dominated by the one-second mDNS announcement hc makes inside the pairing handlers)
 	done := make(chan bool)
